@@ -955,7 +955,14 @@ func (tc *typechecker) binaryOp(expr1 ast.Expression, op ast.OperatorType, expr2
 			}
 		}
 
-		c, err := t1.Constant.binaryOp(op, t2.Constant)
+		c1 := t1.Constant
+		if (op == ast.OperatorDivision || op == ast.OperatorModulo) && t1.Untyped() && !(t1.IsInteger() && t2.IsInteger()) {
+			// An untyped floating-point or complex constant with an integer
+			// value can be represented as an integer, but the operation is
+			// not an integer operation.
+			c1 = intToRat(c1)
+		}
+		c, err := c1.binaryOp(op, t2.Constant)
 		if err != nil {
 			switch err {
 			case errInvalidOperation:
